@@ -546,11 +546,87 @@ func vFixed() []*vPolCase {
 	return []*vPolCase{a, b, f, x1, &x2}
 }
 
+// vGrids enumerates three small universes EXHAUSTIVELY (correspondence
+// support, not a proof): the uint32 time-lock logic around 0 and around the
+// 2^32 wrap, the fee inequality for tiny amounts with every sign of the
+// inbound fee, and the amount window / bandwidth / shaper modes.
+func vGrids() []*vPolCase {
+	base := func(cls string) *vPolCase {
+		return &vPolCase{
+			Kind: "fwd", Cls: cls, Min: 0, Max: 0, Base: 0, Rate: 0,
+			Delta: 1, Rej: 1, MaxCltv: 3, UpdOk: true, Aux: 2,
+			AuxBw: 1 << 40, In: 10, Out: 5, InExp: 4, OutExp: 3,
+			Height: 1,
+		}
+	}
+	var cs []*vPolCase
+	top := uint32(math.MaxUint32)
+	heights := []uint32{0, 1, 2, top - 2, top - 1, top}
+	exps := []uint32{0, 1, 2, 3, 4, top - 2, top - 1, top}
+	for _, h := range heights {
+		for rej := uint32(0); rej < 3; rej++ {
+			for mc := uint32(0); mc < 4; mc++ {
+				for _, oe := range exps {
+					for _, ie := range exps {
+						for d := uint32(0); d < 3; d++ {
+							c := base("grid:timelock")
+							c.Height, c.Rej, c.MaxCltv = h, rej, mc
+							c.OutExp, c.InExp, c.Delta = oe, ie, d
+							cs = append(cs, c)
+						}
+					}
+				}
+			}
+		}
+	}
+	rates := []uint64{0, 500_000, 1_000_000}
+	irates := []int32{-1_000_000, -500_000, 0, 500_000, 1_000_000}
+	for in := uint64(0); in < 7; in++ {
+		for out := uint64(0); out < 5; out++ {
+			for b := uint64(0); b < 3; b++ {
+				for _, rt := range rates {
+					for ib := int32(-2); ib <= 2; ib++ {
+						for _, ir := range irates {
+							c := base("grid:fee")
+							c.In, c.Out, c.Base, c.Rate = in, out, b, rt
+							c.IBase, c.IRate = ib, ir
+							cs = append(cs, c)
+						}
+					}
+				}
+			}
+		}
+	}
+	for mn := uint64(0); mn < 3; mn++ {
+		for mx := uint64(0); mx < 4; mx++ {
+			for bw := uint64(0); bw < 4; bw++ {
+				for out := uint64(0); out < 5; out++ {
+					for aux := 0; aux < 4; aux++ {
+						for k := 0; k < 8; k++ {
+							c := base("grid:amount")
+							c.Min, c.Max, c.AuxBw, c.Out = mn, mx, bw, out
+							c.Aux = aux
+							c.Custom = k&1 == 1
+							c.UpdOk = k&2 == 0
+							if k&4 != 0 {
+								c.Kind = "transit"
+							}
+							cs = append(cs, c)
+						}
+					}
+				}
+			}
+		}
+	}
+
+	return cs
+}
+
 func TestVerifPolicy(t *testing.T) {
 	out := vOpenOut()
 	defer out.close()
 	master := vNewRng(vSeed())
-	ncases := vCases(24000, 600000)
+	ncases := vCases(40000, 400000)
 
 	// Real channels with different balances: the link's bandwidth is what
 	// the real LightningChannel reports.
@@ -610,6 +686,8 @@ func TestVerifPolicy(t *testing.T) {
 		}
 		rc.Cls = "replay"
 		fixed = []*vPolCase{rc}
+	} else if vEnvInt("VERIF_GRIDS", 1) != 0 {
+		fixed = append(fixed, vGrids()...)
 	}
 	for ci := 0; ci < ncases+len(fixed); ci++ {
 		r := master.fork(uint64(ci))
